@@ -313,6 +313,12 @@ impl RngExt for TestRng {
 
 /// Final triage + evidence + exit code.  Never returns.
 pub fn finish(ctx: &Ctx, mut st: Stats, rule: &str, assumptions: &[&str], vacuity: Vec<String>) -> ! {
+    let (pre, npre) = crate::regress::take();
+    st.evaluations += npre;
+    st.notes.insert("saved_regression_cases_replayed".into(), json!(npre));
+    for f in pre {
+        st.fail(f);
+    }
     let wall = ctx.start.elapsed().as_secs_f64();
     let mut violations = vec![];
     let mut known_hits: BTreeMap<String, (String, u64)> = BTreeMap::new();
